@@ -31,6 +31,7 @@ graph arguments of the command line):
 """
 import io
 import os
+import sys
 import shutil
 import random
 import tempfile
@@ -690,6 +691,11 @@ def check_cli(case, tmp, stats=None):
 
 
 def replay(case):
+    if case.get('kind') == 'nodot':
+        from engine.common import R as _R
+        r = _R('replay')
+        run_nodot({}, r)
+        return r.violations
     setup_paths()
     tmp = Scratch()
     try:
@@ -1127,6 +1133,30 @@ def plan(tier, seed):
     return units
 
 
+def run_nodot(args, R):
+    """An installation without the optional package pydot (fresh interpreter,
+    see engine/c14_nodot.py): the other documented formats of every graph
+    type are offered and round-trip."""
+    import json
+    import subprocess
+    from engine.common import VERIF
+    env = dict(os.environ)
+    env['VERIF_REPO_PATH'] = os.environ.get('VERIF_REPO', '/repo')
+    env.pop('PYTHONPATH', None)
+    p = subprocess.run([sys.executable, os.path.join(VERIF, 'engine', 'c14_nodot.py')],
+                       stdout=subprocess.PIPE, stderr=subprocess.PIPE, env=env, timeout=300)
+    if p.returncode != 0:
+        raise RuntimeError('c14_nodot failed: %s' % p.stderr.decode()[-1500:])
+    res = json.loads(p.stdout.decode())
+    if res['has_dot_library']:
+        raise RuntimeError('pydot could not be hidden from the interpreter')
+    R.stats['roundtrips_without_pydot'] += res['roundtrips']
+    for sym, gtype, what in res['problems']:
+        R.bad('no-pydot:%s:%s' % (group(gtype), sym), '%s graphs without pydot: %s' % (gtype, what),
+              {'kind': 'nodot'})
+    R.case(sample={'kind': 'nodot'}, nontrivial=True, n=res['roundtrips'])
+
+
 def shards(tier, seed):
     units = plan(tier, seed)
     k = 64
@@ -1140,4 +1170,5 @@ def shards(tier, seed):
         loads[b] += units[j][0]
     # heaviest shards first so that the pool ends evenly
     idx = sorted(range(k), key=lambda b: (-loads[b], b))
-    return [('s%03d' % n, 'run_units', bins[b]) for n, b in enumerate(idx) if bins[b]]
+    return [('s%03d' % n, 'run_units', bins[b]) for n, b in enumerate(idx) if bins[b]] + \
+        [('nodot', 'run_nodot', {})]
